@@ -372,14 +372,14 @@ Section JobLevel.
   Qed.
 
   (** *** RemainingOperations *)
-  Definition fresh_rem : fobs := rem_init I (all_deques I) (zero_obj I FRemOps m).
+  Definition fresh_rem : fobs := rem_init I (unscheduled_ops I (init_d I)) (zero_obj I FRemOps m).
   Definition cf_rem (d : dstate) : fobs :=
     set_feats (blank FRemOps) None (when (t_mach m) (remm_vec I d)) (when (t_jobs m) (remj_vec I d)).
 
   Lemma cf_rem_init : t_ops m = false -> fresh_rem = cf_rem (init_d I).
   Proof.
     intros H. unfold fresh_rem, cf_rem, rem_init, zero_obj. cbn [fo_ops fo_mach fo_jobs set_feats blank].
-    rewrite H, all_deques_concat. cbn [when]. unfold when.
+    rewrite H, unscheduled_init. cbn [when]. unfold when.
     destruct (t_mach m), (t_jobs m); cbn [option_map];
       rewrite <- ?remj_vec_init, <- ?remm_vec_init; reflexivity.
   Qed.
